@@ -72,3 +72,132 @@ Proof.
       * unfold own_or0. rewrite G1. cbn [h_own]. rewrite stat_add_0_l. apply kdelta_nonneg, Hk.
       * intros x. rewrite U, <- Live. apply stat_add_count, Nt.
 Qed.
+
+Lemma extends_increfs : forall c m l, extends c m (increfs m l).
+Proof. intros. apply extends_same; intros; [apply increfs_shape | apply increfs_use]. Qed.
+
+Lemma get_remove_other : forall m s y, y <> s -> get (remove m s) y = get m y.
+Proof.
+  induction m as [|[x sc] r IH]; intros s y Hne; cbn; [reflexivity|].
+  destruct (sid_eqb x s) eqn:X; cbn.
+  - apply sid_eqb_eq in X. subst x. destruct (sid_eqb s y) eqn:Y; [apply sid_eqb_eq in Y; congruence | reflexivity].
+  - destruct (sid_eqb x y); [reflexivity | apply IH, Hne].
+Qed.
+
+Lemma stream_vec_mem : forall b, mem (stream_vec b) = 0.
+Proof. reflexivity. Qed.
+Lemma conn_vec_mem : forall b f, mem (conn_vec b f) = 0.
+Proof. reflexivity. Qed.
+
+Theorem open_stream_inv : forall c st a j q inb,
+  cfg_ok c -> Inv c (scopes st) a -> hget (holders a) (Stream j) = None ->
+  let '(st', cls) := open_stream c st j q inb in
+  Inv c (scopes st')
+      (if cls =? 0
+       then mkAstate (hset (holders a) (Stream j) (mkHolder (stream_vec inb) [Peer q; Transient; System] [] false))
+                     (aconns a) (nset (astreams a) j (mkAstream q None None))
+       else a).
+Proof.
+  intros c st a j q inb LO I Hf. unfold open_stream.
+  set (E := [Peer q; Transient; System]).
+  set (m0 := get_scope c (scopes st) (Peer q)).
+  assert (E0 : extends c (scopes st) m0) by (apply extends_get_scope; [reflexivity | apply (I_base c _ a I)]).
+  set (mb := increfs m0 E).
+  assert (Eb : extends c (scopes st) mb) by (apply (extends_trans c _ m0); [exact E0 | apply extends_increfs]).
+  assert (Ib : Inv c mb a) by (apply (Inv_extends c _ mb a LO I Eb)).
+  unfold new_scope. fold mb.
+  set (sc0 := mkScope (lim_stream c) stat0 false 0 [] E).
+  set (m2 := decref (set mb (Stream j) sc0) (Peer q)).
+  set (a2 := mkAstate (hset (holders a) (Stream j) (mkHolder (stream_vec inb) E [] false))
+                      (aconns a) (nset (astreams a) j (mkAstream q None None))).
+  pose proof (open_leaf c mb m2 a a2 (Stream j) E (lim_stream c) 0 (KStream inb) LO Ib eq_refl Hf) as H.
+  assert (HE : forall x, In x E -> is_handle x = false /\ get mb x <> None).
+  { destruct (I_base c _ a I) as (B1 & B2 & _). intros x [<-|[<-|[<-|[]]]]; (split; [reflexivity|]).
+    - apply (extends_present c m0 mb _ (extends_increfs c m0 E)), get_scope_present.
+    - apply (extends_present c _ mb _ Eb B2).
+    - apply (extends_present c _ mb _ Eb B1). }
+  specialize (H ltac:(repeat constructor; cbn; intuition discriminate) HE eq_refl).
+  assert (Oth : forall y, y <> Stream j -> shape_of m2 y = shape_of mb y /\ use_of m2 y = use_of mb y).
+  { intros y Hne. unfold m2. rewrite decref_shape, decref_use. unfold shape_of, use_of.
+    rewrite get_set_other by congruence. split; reflexivity. }
+  assert (Gs : get m2 (Stream j) = Some sc0).
+  { unfold m2, decref. rewrite get_upd. cbn [sid_eqb]. apply get_set_same. }
+  specialize (H Oth Gs Logic.I (stream_vec_mem inb) eq_refl).
+  destruct (scope_reserve m2 (Stream j) (KStream inb)) as [m3 e]. destruct e as [e|]; cbn [scopes].
+  - rewrite ecode_some. exact H.
+  - exact H.
+Qed.
+
+Lemma conn_done_scopes : forall c st i, scopes (conn_done c st i) = scope_done (scopes st) (Conn i).
+Proof.
+  intros c st i. unfold conn_done. destruct (is_done (scopes st) (Conn i)) eqn:D; [|reflexivity].
+  symmetry. apply scope_done_done, D.
+Qed.
+
+Lemma nget_nset_same : forall A (l : list (nat * A)) k v, nget (nset l k v) k = Some v.
+Proof.
+  induction l as [|[x w] r IH]; intros k v; cbn; [rewrite Nat.eqb_refl; reflexivity|].
+  destruct (Nat.eqb x k) eqn:X; cbn; rewrite X; [reflexivity | apply IH].
+Qed.
+
+Definition conn_par (al : bool) : list sid := if al then [ATransient; ASystem] else [Transient; System].
+
+Theorem open_conn_inv : forall c st a i inb usefd ep,
+  cfg_ok c -> Inv c (scopes st) a -> hget (holders a) (Conn i) = None ->
+  let '(st', cls) := open_conn c st i inb usefd ep in
+  let al := match nget (conns st') i with Some ci => ci_allow ci | None => false end in
+  Inv c (scopes st')
+      (if cls =? 0
+       then mkAstate (hset (holders a) (Conn i) (mkHolder (conn_vec inb usefd) (conn_par al) [] false))
+                     (nset (aconns a) i (mkAconn ep al None true al)) (astreams a)
+       else a).
+Proof.
+  intros c st a i inb usefd ep LO I Hf. unfold open_conn.
+  destruct (match ep with Some a0 => match limiter_add c (lims st) a0 with Some l => Some l | None => None end
+                        | None => Some (lims st) end) as [l|]; [|exact I].
+  destruct (I_base c _ a I) as (B1 & B2 & B3 & B4).
+  (* first attempt: transient + system *)
+  unfold new_scope at 1.
+  set (mb := increfs (scopes st) [Transient; System]).
+  assert (Eb : extends c (scopes st) mb) by apply extends_increfs.
+  assert (Ib : Inv c mb a) by (apply (Inv_extends c _ mb a LO I Eb)).
+  set (sc0 := mkScope (lim_conn c) stat0 false 0 [] [Transient; System]).
+  set (k := KConn inb usefd).
+  pose proof (open_leaf c mb (set mb (Conn i) sc0) a
+                (mkAstate (hset (holders a) (Conn i) (mkHolder (conn_vec inb usefd) (conn_par false) [] false))
+                          (nset (aconns a) i (mkAconn ep false None true false)) (astreams a))
+                (Conn i) [Transient; System] (lim_conn c) 0 k LO Ib eq_refl Hf) as H.
+  specialize (H ltac:(repeat constructor; cbn; intuition discriminate)).
+  specialize (H ltac:(intros x [<-|[<-|[]]]; (split; [reflexivity|]);
+                      [apply (extends_present c _ mb _ Eb B2) | apply (extends_present c _ mb _ Eb B1)]) eq_refl).
+  specialize (H ltac:(intros y Hne; unfold shape_of, use_of; rewrite get_set_other by congruence; split; reflexivity)
+                (get_set_same mb (Conn i) sc0) Logic.I (conn_vec_mem inb usefd) eq_refl).
+  destruct (scope_reserve (set mb (Conn i) sc0) (Conn i) k) as [m1 e1].
+  destruct e1 as [e1|].
+  2:{ cbn [scopes conns with_scopes]. rewrite nget_nset_same. cbn [ci_allow]. exact H. }
+  destruct (match ep with Some a0 => allowed c a0 | None => false end).
+  - (* retry through the allow-listed scopes *)
+    cbn [scopes conns streams lims with_scopes].
+    set (md := scope_done m1 (Conn i)) in *.
+    unfold new_scope.
+    set (sc1 := mkScope (lim_conn c) stat0 false 0 [] [ATransient; ASystem]).
+    set (m3 := set (increfs (remove md (Conn i)) [ATransient; ASystem]) (Conn i) sc1).
+    pose proof (open_leaf c md m3 a
+                  (mkAstate (hset (holders a) (Conn i) (mkHolder (conn_vec inb usefd) (conn_par true) [] false))
+                            (nset (aconns a) i (mkAconn ep true None true true)) (astreams a))
+                  (Conn i) [ATransient; ASystem] (lim_conn c) 0 k LO H eq_refl Hf) as H2.
+    destruct (I_base c md a H) as (D1 & D2 & D3 & D4).
+    specialize (H2 ltac:(repeat constructor; cbn; intuition discriminate)).
+    specialize (H2 ltac:(intros x [<-|[<-|[]]]; (split; [reflexivity | assumption])) eq_refl).
+    assert (Oth : forall y, y <> Conn i -> shape_of m3 y = shape_of md y /\ use_of m3 y = use_of md y).
+    { intros y Hne. unfold m3. split.
+      - unfold shape_of at 1. rewrite get_set_other by congruence. fold (shape_of (increfs (remove md (Conn i)) [ATransient; ASystem]) y).
+        rewrite increfs_shape. unfold shape_of. rewrite get_remove_other by exact Hne. reflexivity.
+      - unfold use_of at 1. rewrite get_set_other by congruence. fold (use_of (increfs (remove md (Conn i)) [ATransient; ASystem]) y).
+        rewrite increfs_use. unfold use_of. rewrite get_remove_other by exact Hne. reflexivity. }
+    specialize (H2 Oth (get_set_same _ (Conn i) sc1) Logic.I (conn_vec_mem inb usefd) eq_refl).
+    destruct (scope_reserve m3 (Conn i) k) as [m4 e4]. destruct e4 as [e4|].
+    + rewrite conn_done_scopes. cbn [scopes]. rewrite ecode_some. exact H2.
+    + cbn [scopes conns]. rewrite nget_nset_same. cbn [ci_allow]. exact H2.
+  - rewrite conn_done_scopes. cbn [scopes with_scopes]. rewrite ecode_some. exact H.
+Qed.
